@@ -45,6 +45,7 @@ def gen(rng):
     used = set()
     dup = rng.random() < 0.12
     deeptrash = rng.random() < 0.02
+    samebase = rng.choice(['twin', 'twin.txt', 'report 50%', 'twin.tar.gz']) if (rng.random() < 0.15 and not deeptrash) else None
     if deeptrash:
         # the home trash lies ~3800 bytes deep (XDG_DATA_HOME on a deeply nested path): info/ can still be created, but
         # info/<a long name>.trashinfo is longer than PATH_MAX whatever is cut off the NAME to make room for the suffix
@@ -61,11 +62,17 @@ def gen(rng):
         # a '%' or braces in the name must not matter to whatever builds the diagnostics
         sfx = rng.choice(['', '', '', ' 50%', '%s', '%d', '{0}', '%(x)s'])
         nm = 'a%d' % i + sfx
+        sub = ''
+        if samebase:
+            # every argument has the SAME base name, each in a directory of its own (report.txt from three project directories):
+            # in the trash they become twin, twin_1, twin_2 ... - what happens to one must not touch the record of another
+            nm = samebase
+            sub = '/s%d' % i
         if cls == 'ok':
             if rng.random() < 0.12 or (deeptrash and i == 0):
                 # 246-255 bytes of multi-byte characters: '<name>.trashinfo' is too long for the kernel, the name gets shortened
                 nm = rng.choice(['я' * 122, '日' * 83, 'é' * 121, '😀' * 61]) + 'x' * rng.randint(0, 4) + str(i)
-            p = wd + '/' + nm
+            p = wd + sub + '/' + nm
             G.make_entry(rng, p, rng.choice(['file', 'dir', 'link_dangling', 'empty', 'link_file', 'link_dir']), steps, aux)
         elif cls == 'emptystr':
             p = ''
@@ -88,13 +95,13 @@ def gen(rng):
             faults.append({'kind': 'cond', 'what': 'name_errno', 'ops': rng.choice([['open_w'], ['open_w'], ['write', 'fwrite'], ['close']]) ,
                            'basename': 'nf%d.trashinfo' % i, 'prefix': 'nf%d' % i, 'suffix': '.trashinfo', 'errno': rng.choice([E.ENOSPC, E.EDQUOT, E.EROFS, E.EIO, E.EACCES])})
         elif cls == 'immutable':
-            p = wd + '/imm%d' % i + sfx
+            p = (wd + '/imm%d' % i + sfx) if not samebase else (wd + sub + '/' + nm)
             G.make_entry(rng, p, rng.choice(['file', 'dir']), steps, aux)
             faults.append({'kind': 'cond', 'what': 'immutable', 'entry': p})
         else:
             d = wd + '/rodir%d' % i + sfx
             steps.append(['d', d, 0o555])
-            p = d + '/inside'
+            p = d + '/' + ('inside' if not samebase else nm)
             G.make_entry(rng, p, 'file', steps, aux)
             faults.append({'kind': 'cond', 'what': 'dir_not_writable', 'dir': d})
         if cls in ('immutable', 'rodir', 'infofail', 'ok') and p and rng.random() < 0.25:
